@@ -34,4 +34,13 @@ let handle f = match f with
       let d = display g (text_of_wire oracle) c1 in
       let c2 = apply_input l g c1 d in
       cell_line c1 ^ " ; " ^ wire_of_text d ^ " ; " ^ cell_line c2
+  | ["r2"; loc; lang; fmt; qp; steps; t; oracle] ->
+      let l = get_loc loc and g = get_lang lang in
+      let c0 = { c_val = VEmpty; c_qp = bi qp; c_fmt = text_of_wire fmt } in
+      let stepl = if steps = "_" then [] else List.map text_of_wire (String.split_on_char ',' steps) in
+      let cp = List.fold_left (fun c s -> apply_input l g c s) c0 stepl in
+      let c1 = apply_input l g cp (text_of_wire t) in
+      let d = display g (text_of_wire oracle) c1 in
+      let c2 = apply_input l g c1 d in
+      cell_line c1 ^ " q" ^ bs c1.c_qp ^ " ; " ^ wire_of_text d ^ " ; " ^ cell_line c2 ^ " q" ^ bs c2.c_qp
   | _ -> "badcase"
